@@ -15,6 +15,11 @@
 (*    C-R < X < C    {(C-X)/R}                                              *)
 (*    X <= C-R       {1}                                                   *)
 (* R > C : the call is rejected and the table is untouched.                *)
+(* The library derives the splittings from the vector's components, which  *)
+(* costs an ulp: a pair meant to sit ON a threshold sits within an ulp of   *)
+(* it, so the replayer accepts a factor within 1e-12 of an allowed value   *)
+(* (the factor is continuous across every threshold except the hard step,  *)
+(* where both values are allowed anyway).                                   *)
 (***************************************************************************)
 EXTENDS Integers, Sequences, TLC, Json
 
